@@ -234,6 +234,16 @@ func lruDriver(seed uint64, n int, outV, outJSON string, _ []string) {
 			}
 			after := v.Snapshot()
 			text = append(text, t)
+			// C05 oracle: nothing is evicted unless the incoming item would not otherwise fit
+			if len(after.Queue) > len(before.Queue) {
+				if strings.HasPrefix(t, "Reserve(") && strings.HasSuffix(t, ")=0") {
+					var n int64
+					fmt.Sscanf(t, "Reserve(%d)", &n)
+					if before.Cur+n <= max {
+						rep.Fail(c, fmt.Sprintf("C05: Reserve(%d) evicted although it fit without eviction (accounted %d, max %d)", n, before.Cur, max), strings.Join(text, " ; "))
+					}
+				}
+			}
 			// C05 oracle: whatever left the recency list without being asked to is a least-recently-used prefix
 			present := map[string]bool{}
 			for _, e := range after.Order {
